@@ -707,8 +707,8 @@ Proof. vm_compute. reflexivity. Qed.
 
 (** the shadow parse of [p --color r<TAB>] and of [p -vc r<TAB>] stands in state [Opt a_color 1] *)
 Example ex_walk_opt_state :
-  start_walk pv_cmd [[112]; dd ++ s_color; [114]] 2 = WAt [114] pv_cmd 1 (Opt a_color 1) false /\
-  start_walk pv_cmd [[112]; [45; 118; 99]; [114]] 2 = WAt [114] pv_cmd 1 (Opt a_color 1) false.
+  start_walk pv_cmd [[112]; dd ++ s_color; [114]] 2 = WAt [114] pv_cmd 1 (Opt a_color 1) false true /\
+  start_walk pv_cmd [[112]; [45; 118; 99]; [114]] 2 = WAt [114] pv_cmd 1 (Opt a_color 1) false true.
 Proof. vm_compute. split; reflexivity. Qed.
 
 (** an option with an optional value ([num_args(0..=1)]): in state [Opt o 1] the values of the
@@ -738,7 +738,7 @@ Theorem long_alias_value_refuted :
     In a (c_args c) /\ In alias (vis_aliases (a_aliases a)) /\
     possible_values tbl a = Some (Some [(v, false)]) /\
     complete_arg_value_done tbl (dd ++ alias ++ [EQ]) c 1 = COk [] /\
-    start_walk c [[112]; dd ++ alias; []] 2 = WAt [] c 1 (Opt a 1) false /\
+    start_walk c [[112]; dd ++ alias; []] 2 = WAt [] c 1 (Opt a 1) false true /\
     complete_arg tbl [] c 1 (Opt a 1) = COk [mkCand v None false].
 Proof.
   exists [(s_color, [(s_red, false)])], pv_cmd', a_color', s_colour, s_red.
